@@ -23,6 +23,12 @@ CLAIMED = {
    note="Trusted: go/ssa, checker/lenprove.go (controls on every run). fromEntry's recombination is listed, not armed. Integer overflow ignored.", ref="§4 C10"),
 }
 # -- add further claimed properties as CLAIMED["Cxx"] = dict(...) below this line --
+CLAIMED["C17"] = dict(technique="static analysis: dominance facts over go/cfg (write-before-publish in Append/CreateEntryWithIO, checked synchronous Dag().Add before every success return of each IO.Write), call-graph who-may-call rule for Dag().Add",
+   text="Decides the side-effect order that crash safety rests on, for every path: memory is updated and the entry returned only on the success edge of the block write, every IO.Write returns an identifier only after a direct, checked Dag().Add (a failed pin cannot reach a success return), only IO.Write implementations add blocks, and the manifest writer publishes ToJSONLog() of its own log. It does not decide that predecessors are in the store nor durability of the store.",
+   note="Trusted: go/cfg, call graph restricted to first-party implementers, coreiface contracts (Add is synchronous).", ref="§4 C17")
+CLAIMED["C18"] = dict(technique="static analysis: path-correlated may-dataflow over go/cfg for the must-clear rule, sibling/table agreement of sealed/restored/cleared field sets extracted from the AST and the wire struct's type, SSA backward slice for PreSign reaching hash and write",
+   text="Decides on every path that the clear link lists are emptied whenever the encrypted side field is written, that PreSign/DecryptLinks/ToJsonableEntry agree on the set of link fields (all []cid.Cid fields of the wire struct) and on the additional-data keys, that the PreSign result is what is hashed and written and links stay in clear only without key or links, and that failed opens only reach error returns. It does not decide secrecy of the sealed bytes.",
+   note="Trusted: go/cfg, go/ssa, go/types. Secretbox and nonce uniqueness are not covered.", ref="§4 C18")
 CLAIMED["C19"] = dict(level="proof", technique="static analysis: abstract interpretation of the comparators' SSA over the finite domain of order-relation patterns (27 sign triples, overflow fork on time subtraction), followed by exhaustive enumeration of the order axioms (27 pairs, 2197 triples)",
    text="Full decision of the stated order laws from the current source: because the comparators touch entries only through three three-way comparisons, their behaviour on all inputs is a finite table computed by an abstract interpreter on every run; irreflexivity/totality, antisymmetry, transitivity (all 2197 consistent triple patterns), causality, default==hash-tiebreak off ties, NoZeroes, first==-last, clock comparison laws and Sort's less function are then checked exhaustively. Every obligation must be discharged; an instruction outside the interpreter's vocabulary fails the check.",
    note="Assumes *entry.Entry/*entry.LamportClock are the only implementers (asserted on every run), distinct entries have distinct hashes, sort.SliceStable's contract, and that a non-wrapped time distance is never MinInt (|time| < 2^62) so that FirstWriteWins' negation is exact. Trusted base: checker/cmp.go, go/ssa.", ref="§4 C19")
